@@ -38,6 +38,10 @@
 //	m15 GlobalFilter.reload: previous.beforePipeline.Store(nil)     -> R-C11-3 predecessor field GlobalFilter.beforePipeline
 //	m16 runtime.reload reloads the mux only if the rules changed    -> R-C11-2 router reloaded on every update
 //
+//	r3b needRestartServer: `x.IPFilter, x.IPFilter = nil, nil` (round-3 seeded change b)   -> R-C11-10 blanked on both copies
+//	m17 needRestartServer: Rules blanking dropped / one-sided Tracing / CacheSize 0 vs 1 /
+//	    both copies from r.spec / pointer "copies" / DeepEqual(x, x)                      -> R-C11-10 (respective obligation)
+//
 // Behaviour-preserving edits (checker unchanged, only the genuine finding remains):
 //
 //	b1 reload: inst renamed, cache creation moved after the rules loop (still before Store); ServeHTTP
@@ -62,6 +66,7 @@ func c11(c *core.Ctx) string {
 	c.Rule("R-C11-3", "predecessor not mutated: for every implementation of filters.Filter.Inherit and of supervisor Controller/TrafficObject.Inherit, no store through a value derived from the previousGeneration parameter (excluding its explicit Close) hits a field that the kind's request path (Handle call tree) reads")
 	c.Rule("R-C11-4", "unchanged spec is a no-op: in TrafficController.ApplyPipeline/ApplyTrafficGate InheritWithRecovery is reachable only with previous.Spec().Equals(new.Spec()) = false and the Equals = true path builds and stores nothing and returns the running entity; in ObjectRegistry.applyConfig the new entity is recorded (entities/created/updated) only if no entity of that name exists or Equals = false")
 	c.Rule("R-C11-6", "a new router generation gets a fresh route cache: muxInstance.cache is only ever assigned a cache created in the same function (a cache carried over keeps routes whose filter chains and options belong to the old generation, so new requests would not see the new generation)")
+	c.Rule("R-C11-10", "a hot-reloadable option never forces a restart: runtime.needRestartServer compares a private copy of the running Spec with a private copy of the next Spec (two distinct struct-valued locals from different specs); the fields blanked before the comparison are the same on both copies with the same neutral value (sibling symmetry), and Spec.Rules is among them")
 	c.Rule("R-C11-5", "per-name isolation: Namespace.pipelines/trafficGates and Supervisor.businessControllers/systemControllers are used only as receivers of sync.Map methods (never assigned or copied), and every Store uses as key the stored entity's own Spec().Name() (or the key of the event map the entity came from)")
 	c.NotDecided = []string{
 		"absence of data races in general (only the publication discipline of the generation pointers/maps is checked)",
@@ -80,6 +85,7 @@ func c11(c *core.Ctx) string {
 	c11NoOp(c)
 	c11Isolation(c)
 	muxCacheFresh(c, "R-C11-6")
+	c11Restart(c)
 	c11SpecEquals(c)
 	// a filter update must be seen by new requests: the default policy reference takes part in the same-policy test (shared with R-C09-6)
 	c.Alias("R-C09-6", "R-C11-9")
